@@ -12,7 +12,7 @@ import time
 from harness import common
 
 CLAUSE_PROPS = {
-    'NoHang': ['C01', 'C04', 'C10', 'C12', 'C20'], 'NoWaitingAtRest': ['C01', 'C04', 'C10', 'C12'], 'DeclaredErrorsOnly': ['C01'],
+    'KnownTasksOnly': ['C01', 'C09'], 'NoHang': ['C01', 'C04', 'C10', 'C12', 'C20'], 'NoWaitingAtRest': ['C01', 'C04', 'C10', 'C12'], 'DeclaredErrorsOnly': ['C01'],
     'WfMoves': ['C03'], 'ResultOnce': ['C03', 'C06'], 'SuccessSticky': ['C03'], 'FinishedFrozen': ['C03', 'C11', 'C20'],
     'JoinGate': ['C04'], 'JoinOnce': ['C04'], 'Caused': ['C04'], 'ReqGate': ['C04'], 'OnlyNeededOnce': ['C04'],
     'DupNoEffect': ['C06'], 'StartOnce': ['C06', 'C10'], 'NoDoubleDispatch': ['C06', 'C10'],
@@ -23,7 +23,7 @@ CLAUSE_PROPS = {
     'WaitBeforeRespected': ['C08'], 'PauseBeforeRespected': ['C08'], 'WaitAfterRespected': ['C08'], 'TimeoutJudged': ['C08'], 'FailOnApplied': ['C08'],
     'ExpiredFailed': ['C20'], 'NeverExpireFresh': ['C20'], 'NoStuckTaskAtRest': ['C20', 'C01'],
     'RerunRestores': ['C12'], 'SkipApplied': ['C12'], 'RerunReexecutes': ['C12'], 'PartialRerunOnlyFailed': ['C12', 'C07'],
-    'ParentMirrorsChild': ['C09', 'C12'], 'RootAndNamespace': ['C09'],
+    'ParentMirrorsChild': ['C09', 'C12'], 'CalledDefinition': ['C09'], 'RootAndNamespace': ['C09'],
     'Prescribed': ['C01', 'C02', 'C04', 'C09', 'C10', 'C12'],
 }
 
@@ -39,7 +39,7 @@ def _run_job(job):
     try:
         tr = engrun.run_program(job['prog'], scheduler=job.get('scheduler', 'default'), policy=job.get('policy', 'random'),
                                 seed=job.get('seed', 0), ops=job.get('ops'), dups=job.get('dups', 0),
-                                evict=job.get('evict', False), max_steps=job.get('max_steps', 400), c20=job.get('c20'), ids=job.get('ids', 'rand'))
+                                evict=job.get('evict', False), max_steps=job.get('max_steps', 400), c20=job.get('c20'), ids=job.get('ids', 'rand'), prims=job.get('prims', False))
         tr['meta']['label'] = job.get('label', '')
         tr['meta']['yaml'] = job['prog'].yaml()
         tr['meta']['ops'] = job.get('ops') or []
@@ -67,6 +67,14 @@ def judge(d, traces, chunk=150):
         tf = os.path.join(d, 'runs_%d.ndjson' % k)
         with open(tf, 'w') as fh:
             for t in part:
+                # totality: a task execution whose name the definition does not know must be judged, not crash the judge
+                known = t['prog']['tasks']
+                for s_ in t['steps']:
+                    for x in s_['obs']['tk']:
+                        if x['name'] not in known:
+                            known[x['name']] = dict(kind='action', join=0, succ=[], err=[], comp=[], requires=[], outcome=[['ok']], wf='unknown', sub='',
+                                                    items=-1, conc=0, retry=0, delay=0, waitBefore=0, waitAfter=0, timeout=0, pauseBefore=False, failOn=False)
+                            t['prog']['inbound'][x['name']] = []
                 fh.write(json.dumps({'prog': t['prog'], 'meta': {'mayPause': t['meta']['mayPause'], 'faulty': t['meta']['faulty'],
                                               'hbThreshold': int(t['meta'].get('hbThreshold', 0)), 'policies': bool(t['prog']['flags'].get('retry') or t['prog']['flags'].get('policy'))},
                                      'declared': t['declared'], 'steps': t['steps']}) + '\n')
